@@ -113,9 +113,9 @@ PROBES.append((re.compile(r"^ad::(AuthenticatorData::from_slice|AttestedCredenti
 
 
 # builder: flag values handed to set_flags with and without the sections, in every setter order
-PROBES.insert(0, (re.compile(r"^ad::AuthenticatorData::(new|set_\w+)::"), "authdata-built",
+PROBES.insert(0, (re.compile(r"^ad::(AuthenticatorData::(new|set_\w+|to_vec)|AttestedCredentialData::into_iter|From<Flags> for u8::from)::"), "authdata-built",
                   ["%02x|%d|%d|%s" % (f, a, e, o) for o in ("fae", "afe", "aef", "f") for (a, e) in ((0, 0), (1, 0), (0, 1), (1, 1))
-                   for f in (0x00, 0x01, 0x05, 0x40, 0x80, 0xc5)]))
+                   for f in (0x00, 0x01, 0x04, 0x05, 0x40, 0x80, 0xc5)]))
 # the verified table checker says the table and the rule list disagree: the enumeration names a domain that shows it
 PROBES.insert(0, (re.compile(r"^psl::"), "psl-enumerate", ["/repo/public-suffix/public_suffix_list.dat"]))
 PROBES.insert(0, (re.compile(r"^dbg::"), "passkey-debug", ["-"]))
@@ -139,7 +139,12 @@ PROBES.append((re.compile(r"^org::Origin::fmt::ensures#web"), "origin-text",
 for _u, _m in (("swgaq", "gaq"), ("swgar", "gar"), ("swmcq", "mcq"), ("swmcr", "mcr"), ("swgi", "gi"), ("swhs", "hs")):
     PROBES.append((re.compile(r"^%s::" % _u), "ctap-map", [_m]))
 PROBES.append((re.compile(r"^(clt::|org::|cli::Client::)"), "client-ceremonies", ["sweep"]))
-PROBES.append((re.compile(r"^sto::Option::"), "shipped-store", ["option"]))
+PROBES.append((re.compile(r"^lck::\w+::find_credentials::"), "lock-wrappers", ["find"]))
+PROBES.append((re.compile(r"^lck::\w+::save_credential::"), "lock-wrappers", ["save"]))
+PROBES.append((re.compile(r"^lck::\w+::update_credential::"), "lock-wrappers", ["update"]))
+PROBES.append((re.compile(r"^lck::\w+::get_info::"), "lock-wrappers", ["info"]))
+PROBES.append((re.compile(r"^sto::Option::"), "shipped-store", ["option-lists", "option"]))
+PROBES.append((re.compile(r"^sto::MemoryStore::"), "shipped-store", ["memory-lists"]))
 PROBES.append((re.compile(r"^sto::MemoryStore::.*finds-what-matches"), "shipped-store", ["memory-idless"]))
 PROBES.append((re.compile(r"^sto::MemoryStore::"), "shipped-store", ["memory-rp", "memory-idless"]))
 # sender: payload lengths around every packet boundary (and the maximum), every byte non-zero so that stale bytes show
@@ -189,6 +194,8 @@ def probe(o, pid=None):
             entry = entry0
             if a.startswith("@"):   # "@<entry>:<arg>": this input goes to another entry of the replay crate
                 entry, a = a[1:].split(":", 1)
+            if entry == "authdata-built" and pid in ("C02", "C03", "C04", "C08"):
+                a = a + "|" + pid     # only what this property says of authenticator data is looked at
             key = "%s %s" % (entry, a)
             if key in skip and key not in own:
                 continue   # the recorded input of a known finding is evidence for that finding only
@@ -322,6 +329,9 @@ def known_inputs(pid):
     return set(k["input"] for k in findings.load() if k["property"] == pid and k.get("input"))
 
 
+LCK_OPS = {"C05": ("find",), "C07": ("save", "update"), "C11": ("info",)}
+
+
 def fallback_probe(pid, units):
     """The proof is undecided on this tree (a construct outside the dialect, a lost anchor): execute every clause-derived input and
     scenario sweep that belongs to the property's units on the real code.  A reproduced failure is a violation with a concrete
@@ -352,6 +362,10 @@ def fallback_probe(pid, units):
                 e2, a = a[1:].split(":", 1)
             if ("%s %s" % (e2, a)) in skip:
                 continue
+            if e2 == "lock-wrappers" and a not in LCK_OPS.get(pid, ()):
+                continue     # a wrapper operation this property says nothing about
+            if e2 == "authdata-built" and pid in ("C02", "C03", "C04", "C08"):
+                a = a + "|" + pid
             rep = run_replay(e2, a, timeout=300)
             tried += 1
             if rep.get("violates"):
